@@ -162,6 +162,35 @@ def rule_R2l(res, prog, prop=PROP, rid="C06.R2l"):
     res.floor(rid, 3)
 
 
+def rule_R1h(res, prog):
+    """RFC 8446 4.1.4: at most one HelloRetryRequest per connection.  The client records a received HelloRetryRequest in
+    ssl->tls13IncorrectDheKeyShare; the store of TRUE in tls13ParseServerHello must lie under the branch fact that the
+    flag was still false (a HelloRetryRequest answering ClientHello2 is a repeated message and must be fatal)."""
+    from sa import cfgutil as cu
+    rid = "C06.R1h"
+    res.rule(rid, "client: a HelloRetryRequest is accepted only when none was received before in this connection")
+    fn = prog.fn("tls13ParseServerHello")
+    gf = cu.guard_facts(fn)
+    n = 0
+    for b in fn.blocks:
+        for i, ln, x in cu.block_exprs(b):
+            for nd in walk(x):
+                if nd.get("k") == "bin" and nd["op"] == "=" and (strip(nd["l"]) or {}).get("f") == "tls13IncorrectDheKeyShare" and \
+                        (strip(nd["r"]) or {}).get("k") == "int" and strip(nd["r"])["v"] != 0:
+                    n += 1
+                    facts = gf.get(b["id"], frozenset())
+                    ok = any((not tr) and t_.endswith("tls13IncorrectDheKeyShare") for (t_, tr) in facts) or \
+                        any(tr and "tls13IncorrectDheKeyShare == 0" in t_ for (t_, tr) in facts)
+                    f_ = None
+                    if not ok:
+                        f_ = Finding(PROP, rid, fn.name, "second HelloRetryRequest accepted",
+                                     "%s:%s tls13ParseServerHello(): the message is recorded as a HelloRetryRequest without the fact that none "
+                                     "was received before (ssl->tls13IncorrectDheKeyShare false): CH, HRR, CH, HRR, CH, SH completes although "
+                                     "RFC 8446 4.1.4 requires unexpected_message" % (fn.relfile, ln), file=fn.relfile, line=ln)
+                    res.instance(rid, "tls13ParseServerHello:%s tls13IncorrectDheKeyShare = TRUE under !tls13IncorrectDheKeyShare" % ln, ok, finding=f_)
+    res.floor(rid, 1)
+
+
 def run(tier):
     res = Result(PROP, tier)
     prog = load_program()
@@ -425,6 +454,7 @@ def run(tier):
             hname(v), ent["ln"], ent["n"]), ent["bad"] is None, finding=fd)
 
     rule_R2l(res, prog)
+    rule_R1h(res, prog)
 
     # ---------------------------------------------------------------- R3
     res.rule("C06.R3", "ChangeCipherSpec discipline: read keys are activated only when expecting Finished; the "
